@@ -22,6 +22,12 @@ def one_acquire_one_release(ctx):
     acq = [c for c in own_calls(f.node) if (dotted(c.func) or '') == 'self._semaphore.acquire']
     ok = len(acq) == 1 and any(field == 'body' for _, field in q.enclosing_trys(acq[0])) and q.in_loop(acq[0]) is None and not q.guards(acq[0])
     ctx.ob(f, 'exactly one self._semaphore.acquire(), inside the try', ok, f'{len(acq)} acquires: a transfer would take no permit or more than one')
+    if len(acq) == 1:
+        t = [t for t, field in q.enclosing_trys(acq[0]) if field == 'body']
+        others = [c for s_ in (t[0].body if t else []) for c in ast.walk(s_) if isinstance(c, ast.Call) and c is not acq[0]]
+        on = [n for c in others for n in g.nodes_of(c)]
+        ctx.ob(f, 'the acquire is the first thing the try does', bool(t) and g.all_dominate(g.nodes_of(acq[0]), on, g.NORMAL),
+               'a failure before the acquire (on_queued, serialisation, a missing file) runs the handler, which releases a permit that was never taken: the limit grows by one per failure')
     inits = [v for st, v in q.local_defs(f, 'on_done_after_calls') if isinstance(v, ast.AST)]
     ok = len(inits) == 1 and isinstance(inits[0], ast.List) and [norm(e) for e in inits[0].elts].count('self._release_semaphore') == 1
     apps = [c for c in own_calls(f.node) if (dotted(c.func) or '') == 'on_done_after_calls.append']
